@@ -64,8 +64,16 @@ impl Indexed {
     }
 }
 
-fn output_size(pixel_format: PixelFormat, expected_pixel_count: usize) -> usize {
-    pixel_format.bytes_per_pixel() * expected_pixel_count
+fn output_size(pixel_format: PixelFormat, expected_pixel_count: usize) -> Result<usize> {
+    pixel_format
+        .bytes_per_pixel()
+        .checked_mul(expected_pixel_count)
+        .ok_or_else(|| {
+            AsepriteParseError::InvalidInput(format!(
+                "Pixel data too large: {} pixels",
+                expected_pixel_count
+            ))
+        })
 }
 
 #[derive(Debug)]
@@ -122,7 +130,7 @@ impl RawPixels {
         pixel_format: PixelFormat,
         expected_pixel_count: usize,
     ) -> Result<Self> {
-        let expected_output_size = output_size(pixel_format, expected_pixel_count);
+        let expected_output_size = output_size(pixel_format, expected_pixel_count)?;
         reader
             .take_bytes(expected_output_size)
             .and_then(|bytes| Self::from_bytes(bytes, pixel_format))
@@ -133,7 +141,7 @@ impl RawPixels {
         pixel_format: PixelFormat,
         expected_pixel_count: usize,
     ) -> Result<Self> {
-        let expected_output_size = output_size(pixel_format, expected_pixel_count);
+        let expected_output_size = output_size(pixel_format, expected_pixel_count)?;
         reader
             .unzip(expected_output_size)
             .and_then(|bytes| Self::from_bytes(bytes, pixel_format))
